@@ -39,7 +39,7 @@ def run(ctx: Ctx) -> None:
     ctx.count("C13.COORD-TAINT(functions reading coordinates)", nf)
     ctx.floor("C13.COORD-TAINT(functions)", nf, 12)
     ctx.floor("C13.COORD-TAINT(positions)", ns, 15)
-    ctx.floor("C13.COORD-TAINT(comparisons)", nc, 8)
+    ctx.floor("C13.COORD-TAINT(comparisons)", nc, 5)
     # the three sanitised column selections must be among the decided positions
     sel = [o for o in ctx.obligations if o.rule == "C13.COORD-TAINT" and "position `index_col`" in o.construct or (o.rule == "C13.COORD-TAINT" and o.function.endswith("compute_cost_volume") and "of `cv[...]`" in o.construct and "disp_index" not in o.construct)]
     ctx.floor("C13.COORD-TAINT(column selections)", len(sel), 3)
@@ -52,6 +52,29 @@ def run(ctx: Ctx) -> None:
         for q in sorted(tree.funcs(rel)):
             np_ += check_position_parity(ctx, "C13.PARITY", rel, q)
     ctx.floor("C13.PARITY(modulo sites)", np_, 6)
+
+    # ---- ACCUMULATE: prefix sums (integral images) are exact for integer-valued inputs only in float64
+    from ..defuse import Defs
+    from ..rules_dtype import F64, accumulator_sites, dtype_of
+    from ..sym import canon
+
+    na = 0
+    for rel in tree.py_files("pandora"):
+        for q, fn in sorted(tree.funcs(rel).items()):
+            sites = accumulator_sites(fn)
+            if not sites:
+                continue
+            d = Defs(fn)
+            seen = set()
+            for node, kind, arr in sites:
+                k = dtype_of(arr, d, node)
+                key = (q, canon(arr))
+                if key in seen:
+                    continue
+                seen.add(key)
+                na += 1
+                ctx.ob("C13.ACCUMULATE", rel, node, f"{q}: running sum `{canon(arr)}` accumulates in float64", k == F64, expected="a float64 accumulator (np.zeros without dtype, dtype=np.float64)", detail=f"the {'cumulative sum' if kind == 'cumsum' else 'recurrence A[i] = A[i-1] + x'} starts at the image border and is kept in {k}: its partial sums grow with the distance to the border, so beyond 2**24 they are rounded differently depending on where the image (or the crop) starts -- window sums obtained by difference are then not bit-identical between a tile and the whole image")
+    ctx.floor("C13.ACCUMULATE", na, 3)
 
     # ---- ODD-WINDOW (shared with C10; K1 is a known finding)
     from .c10 import rule_kernel, rule_odd_window
@@ -93,7 +116,8 @@ SPEC = PropSpec(
         "constant; (b) no modulo / floor division / parity of a row or column position in the local steps (zero sites today; a positive example is re-recognised on every run); (c) every window size handed to "
         "sliding_window is provably odd -- K1 (bilateral) is a known finding; (d) the property's anchors are relative accesses: the four as_strided views take their strides from the array that is passed and slide by "
         "N-(w-1); the median/bilateral kernels build their windows on the input (never on the buffer being written) and start at int(w/2); block cursors cannot shift a window; the four cbca arms follow one template; "
-        "criteria.validity_mask compares with col[0]/col[-1]; the cross-checking correspondent is np.rint(index + disparity) tested against [0, nb_col)."
+        "criteria.validity_mask compares with col[0]/col[-1]; the cross-checking correspondent is np.rint(index + disparity) tested against [0, nb_col); (e) every running sum that starts at the image border "
+        "(np.cumsum / np.nancumsum inputs, loop recurrences A[i] = A[i-1] + x) is kept in float64 -- K2 (cbca's float32 integral images) is a known finding."
     ),
     rule_text="instances: 14 functions reading coordinates (about 30 positions, 11 comparisons), every modulo site of 16 files, 4 window-size sites, 4 as_strided sites, 2 kernels, 4 block nests, 4 arms, validity_mask's 3 branches, 1 correspondent",
     run=run,
@@ -102,6 +126,8 @@ SPEC = PropSpec(
 )
 
 MUTANTS = [
+    {"id": "mean-raster-accumulates-in-image-dtype", "file": IMG, "old": '        r_mean = np.r_[np.zeros((1, nx_)), img["im"].data]\n', "new": '        r_mean = np.r_[np.zeros((1, nx_), dtype=img["im"].dtype), img["im"].data]\n'},
+    {"id": "eq-mean-raster-explicit-float64", "kind": "equiv", "file": IMG, "old": '        r_mean = np.r_[np.zeros((1, nx_)), img["im"].data]\n', "new": '        r_mean = np.r_[np.zeros((1, nx_), dtype=np.float64), img["im"].data]\n'},
     {"id": "col-offset-dropped-sad", "file": SAD, "old": '        index_col = index_col - img_left.coords["col"].data[0]  # If first col coordinate is not 0\n', "new": ""},
     {"id": "col-offset-dropped-census", "file": CEN, "old": '        index_col = index_col - img_left.coords["col"].data[0]  # If first col coordinate is not 0\n', "new": ""},
     {"id": "criteria-len-instead-of-last-coord", "file": CRIT, "old": "(col + d_max > (col[-1]) - offset)),", "new": "(col + d_max > (len(col) - 1) - offset)),"},
